@@ -132,6 +132,16 @@ fn check_rules_al(al: Al, rule_texts: &[&str], a: &mut Acc) {
             let mut line = format!("{} {}", WORD_POOL[i], WORD_POOL[j]);
             let mut want = format!("{} {}", single[i].0.clone().unwrap(), single[j].0.clone().unwrap());
             if let Some(k) = third { line += &format!(" {}", WORD_POOL[k]); want += &format!(" {}", single[k].0.clone().unwrap()); }
+            // the tracer walks the same line word by word: the last state it prints (if it prints any) is the line's result as well
+            if al == NO_ALIAS {
+                if let Out::Ok(Ok(ts)) = guarded(budget_for(line.chars().count() + 4, rule_texts.iter().map(|r| r.chars().count() + 1).sum()) * 3, || asca::get_trace_string(&rules, line.clone(), &[])) {
+                    if let Some(last) = ts.iter().rev().find(|l| l.contains("=>")) {
+                        let after = last.splitn(2, "=>").nth(1).unwrap_or("").trim().to_string();
+                        a.evals += 1;
+                        if after != want.trim() { a.viols.push(Viol { key: format!("line-trace|{}|{}", rule_texts.join(" ;; "), line), desc: format!("get_trace_string([{}], `{}`) ends in `{}`, the words transformed one by one give `{}`", rule_texts.join(" ;; "), line, after, want), case: json!({"al": al_index(al), "kind": "line", "rules": rule_texts, "line": line}) }); }
+                    }
+                }
+            }
             match run(al, &rules, &[line.clone()]) {
                 Out::Ok(Ok(v)) if v.len() == 1 && v[0] == want => { a.ok += 1; }
                 Out::Ok(x) => a.viols.push(Viol { key: format!("line|{}|{}{}", rule_texts.join(" ;; "), line, al_tag(al)), desc: format!("run([{}], [`{}`]) = {:?}, expected [`{}`]", rule_texts.join(" ;; "), line, x, want), case: json!({"al": al_index(al), "kind": "line", "rules": rule_texts, "line": line, "want": want}) }),
